@@ -568,6 +568,17 @@ def mon_c13(ix: Index):
             first_inv = any(x["kind"] == "fn_exit" and x.get("fnkind") == "check" and x["path"] == e["path"] and x["inv"] == e["inv"] for x in ix.by_inv.get(e["inv"], []))
             if first_inv and ln is not None and e.get("val") != ln:
                 out.append(V("C13", "C13/result-not-last-state", "%s returned %s, last state %s" % (e["path"], e.get("val"), ln), e["i"]))
+    # a completed condition is never polled again, and its result is handed over only once its completion is on record
+    completed: dict[str, int] = {}
+    for e in ix.trace:
+        if e["kind"] == "ret" and e.get("opkind") == "wfc":
+            if e["path"] not in completed:
+                completed[e["path"]] = e["i"]
+            if e.get("st") != "SUCCEEDED":
+                out.append(V("C13", "C13/result-before-completion-recorded", "%s returned its result while the backend holds it %s" % (e["path"], e.get("st")), e["i"]))
+        elif e["kind"] == "fn_enter" and e.get("fnkind") == "check" and e["path"] in completed and not e.get("late"):
+            out.append(V("C13", "C13/completed-condition-polled-again", "%s delivered its result (event %d) yet its check runs again in invocation %d (backend status %s)"
+                         % (e["path"], completed[e["path"]], e["inv"], e.get("st")), e["i"]))
     # a failed condition (its check raised and the call delivered that failure to the workflow) is never polled again
     raised_in: dict[str, int] = {}  # path -> invocation in which its check raised
     failed: dict[str, int] = {}  # path -> trace index at which the failure was delivered to user code
